@@ -830,6 +830,10 @@ class Run:
         }
         os.makedirs(os.path.join(OUTDIR, 'evidence'), exist_ok=True)
         json.dump(ev, open(os.path.join(OUTDIR, 'evidence', prop + '.json'), 'w'), indent=1, ensure_ascii=True, default=str)
+        if self.tier == 'thorough':
+            # the last thorough run is kept next to the evidence file, which the next quick run rewrites
+            os.makedirs(os.path.join(OUTDIR, 'evidence', 'thorough'), exist_ok=True)
+            json.dump(ev, open(os.path.join(OUTDIR, 'evidence', 'thorough', prop + '.json'), 'w'), indent=1, ensure_ascii=True, default=str)
         log('%s %s seed=%d: %d evaluations, %d distinct non-trivial, %d driver calls, %.1fs' % (
             prop, self.tier, self.seed, self.evals, len(self.keys), self.calls, time.time() - self.t0))
         obs = ', '.join('%s=%d' % kv for kv in sorted(self.tags.items()))
